@@ -271,6 +271,10 @@ pub struct World {
 	pub fee_rises: Vec<u32>,
 	/// every transaction a node relayed that the chain oracle found valid, in order: (node, txid)
 	pub relayed_valid: Vec<(usize, Txid)>,
+	/// scenario option: the first channel's opening pauses with the funding transaction in the mempool, and the
+	/// driver forks the chain while that transaction is young (`openfork::phase`)
+	pub open_forks: bool,
+	pub open_paused: Option<usize>,
 }
 
 fn lk(a: usize, b: usize) -> ((usize, usize), usize) {
@@ -287,7 +291,7 @@ impl World {
 		log.trace.store(trace && std::env::var("VERIF_TAP_TRACE").is_ok(), Ordering::Relaxed);
 		let best = BlockLocator::new(bitcoin::constants::genesis_block(bitcoin::Network::Regtest).header.block_hash(), crate::chain::BASE_HEIGHT);
 		let nodes: Vec<Node> = node_cfgs.into_iter().enumerate().map(|(i, c)| Node::new(i, c, &log, fee_now, best.clone())).collect();
-		World { rng: seed_rng, log, log_cursor: 0, nodes, chans: vec![], links: HashMap::new(), chain: Chain::new(), obs: VecDeque::new(), step: 0, claimable: vec![], payments: vec![], regs: vec![], script: vec![], trace, fee_now, next_user_id: 1, funding_txs: HashMap::new(), spendable: vec![], watch_counts: HashMap::new(), snapshot_counts: vec![], total_writes: vec![], crashes_handled: 0, writes_at_open: vec![], captured: vec![], revocations_seen: Default::default(), cp_commit_numbers: HashMap::new(), close: None, attacker_htlc_txs: vec![], onchain_done: false, miner_delay_max: 0, miner_release: HashMap::new(), miner_min_feerate: 0, fee_market_used: false, miner_exempt: Default::default(), event_log: vec![], chain_equiv: false, reorgs: false, peak_height: crate::chain::BASE_HEIGHT, justice_focus: false, late_update: false, hold_mgr_blocks: None, held_blocks: vec![], terminal_seen: Default::default(), fee_rises: vec![], relayed_valid: vec![] }
+		World { rng: seed_rng, log, log_cursor: 0, nodes, chans: vec![], links: HashMap::new(), chain: Chain::new(), obs: VecDeque::new(), step: 0, claimable: vec![], payments: vec![], regs: vec![], script: vec![], trace, fee_now, next_user_id: 1, funding_txs: HashMap::new(), spendable: vec![], watch_counts: HashMap::new(), snapshot_counts: vec![], total_writes: vec![], crashes_handled: 0, writes_at_open: vec![], captured: vec![], revocations_seen: Default::default(), cp_commit_numbers: HashMap::new(), close: None, attacker_htlc_txs: vec![], onchain_done: false, miner_delay_max: 0, miner_release: HashMap::new(), miner_min_feerate: 0, fee_market_used: false, miner_exempt: Default::default(), event_log: vec![], chain_equiv: false, reorgs: false, peak_height: crate::chain::BASE_HEIGHT, justice_focus: false, late_update: false, hold_mgr_blocks: None, held_blocks: vec![], terminal_seen: Default::default(), fee_rises: vec![], relayed_valid: vec![], open_forks: false, open_paused: None }
 	}
 	/// Whether the victim (the other party) has processed the revocation of this captured commitment.
 	pub fn is_revoked(&self, c: &crate::onchain::Captured) -> bool {
@@ -980,6 +984,15 @@ impl World {
 			}
 			self.connect(a, b);
 		}
+		self.open_loop(idx, mined, !chaos)
+	}
+	/// Second half of `open_channel` for a channel whose opening was paused with its funding transaction in the
+	/// mempool (`open_forks`): the chain work has been done by the caller.
+	pub fn finish_open(&mut self, idx: usize) -> Result<usize, String> {
+		self.open_loop(idx, true, false)
+	}
+	fn open_loop(&mut self, idx: usize, mut mined: bool, may_pause: bool) -> Result<usize, String> {
+		let (a, b) = (self.chans[idx].a, self.chans[idx].b);
 		for _round in 0..200 {
 			let mut progress = false;
 			for n in [a, b] {
@@ -998,6 +1011,11 @@ impl World {
 			}
 			self.relay_broadcasts();
 			if !mined && self.chans[idx].funding.is_some() && self.chain.mempool.iter().any(|t| Some(t.compute_txid()) == self.chans[idx].funding_txid()) {
+				if may_pause && self.open_forks && self.open_paused.is_none() {
+					// the caller mines (and forks) the chain while the funding transaction is young, then calls `finish_open`
+					self.open_paused = Some(idx);
+					return Ok(idx);
+				}
 				self.mine(8);
 				mined = true;
 				progress = true;
